@@ -1,5 +1,5 @@
 import sys, time
-sys.path.insert(0, '/verif'); sys.path.insert(0, '/verif/_deps')
+sys.path.insert(0, "/repo"); sys.path.insert(0, "/verif"); sys.path.insert(0, '/verif/_deps')
 from mc.props import C09, sessions, scen
 from mc.sched import explore
 from mc.core import Counter
